@@ -545,6 +545,11 @@ impl Property for C03 {
                 }
             }
         }
+        for slot in by_rank[2].iter() {
+            if let Some(last) = slot.last() {
+                last.iter().for_each(|x| stats.observe(x.to_bits() as u64));
+            }
+        }
         // (b) rank independence
         for (ri, name) in [(1usize, "Double"), (2, "Triple")] {
             for (k, (a, b)) in by_rank[0].iter().zip(by_rank[ri].iter()).enumerate() {
